@@ -14,15 +14,18 @@ META = {
                  "decisions over R) + extracted exact checkers on library outputs + extracted-model correspondence on integer inputs",
     "text": "Coq: the ported SimplifyRing (heap as a list, stamps) for every deviation function into Q and every tolerance terminates within 3n+1 pops, "
             "returns an in-order subsequence, keeps >= 3 vertices, and on exit either 3 vertices remain or every kept vertex deviates >= tol from the "
-            "line through its cyclic neighbours in the output; the ported HullImpl returns input points only and hull2_check (strictly convex CCW, "
-            "contains every point, vertices from the input) is sound and accepts the port on an exhaustive bounded sweep; the ported "
+            "line through its cyclic neighbours in the output; the ported HullImpl (lexicographic sort + monotone chains with exact orientation) returns, for EVERY point list, "
+            "a strictly convex CCW polygon of distinct input points containing every input point, or < 3 points iff the input is collinear/too small "
+            "(hull2_convex_contains, unbounded), and hull2_check is a sound certificate for library outputs; the ported "
             "DecomposeByContainment equals its specification (each positive ring heads one component, a hole joins the first positive ring on its "
-            "smallest-containing-parent chain, every ring in at most one component, areas add up); the miter/convex/round-join expressions of "
-            "OffsetContour mean what the comments say over R. Run time: the three ports are compared output-for-output with /repo's static functions "
+            "smallest-containing-parent chain, every ring in at most one component, areas add up over the kept rings unconditionally and over all "
+            "rings when containment implies smaller |area| and every hole is contained in some ring); the miter/convex/round-join/square-cap "
+            "expressions of OffsetContour mean what the comments say over R, join vertices stay within bound(join)*|delta| of the corner, and for a "
+            "convex polygon the rectangles swept by the edges lie inside the half-planes of the offset ring. Run time: the three ports are compared output-for-output with /repo's static functions "
             "on integer inputs; offset_check/mono_check/regular_out_check/hull2_check/decomp_check/ring checks (extracted, exact integer arithmetic on "
             "bit patterns) judge CrossSection::Offset/Hull/Decompose/Simplify outputs at sample points.",
     "note": "Not proved: that Offset's output region is the metric offset (decided per sample point only, outside a band of chord error + 10 eps); "
-            "general correctness of the monotone chain beyond the bounded sweep (certificate-checked per output instead). Trusted: Coq kernel, "
+            "the remaining gap is stated in Properties_C12.v (g1-g3). Trusted: Coq kernel, "
             "extraction, real-number axioms of the Coq standard library for the offset lemmas, the harness and the Python scaling of bit patterns "
             "to integers, the y-up half-open ray rule of Wind2Defs at points on the boundary.",
 }
@@ -95,8 +98,20 @@ def q16(x):
 
 
 # ------------------------------------------------------------------ integer-regime generators
+def init_devs(ring):
+    """the code's deviation2 of every vertex of the untouched ring, exactly"""
+    n, out = len(ring), []
+    for i in range(n):
+        P, V, N = ring[i - 1], ring[i], ring[(i + 1) % n]
+        pn = (N[0] - P[0], N[1] - P[1])
+        l2 = pn[0] * pn[0] + pn[1] * pn[1]
+        c = (V[0] - P[0]) * pn[1] - (V[1] - P[1]) * pn[0]
+        out.append(Fraction(c * c, l2) if l2 > 0 else Fraction(0))
+    return out
+
+
 def gen_simp(rng, cid):
-    mode = rng.randrange(6)
+    mode = rng.randrange(9)
     n = rng.choice([3, 4, 5, 6, 8, 10, 14, 20, 30])
     R = 60
     if mode == 0:      # lattice rectangle with many collinear boundary points (ties everywhere)
@@ -115,6 +130,23 @@ def gen_simp(rng, cid):
             ring.insert(i, ring[i])
     elif mode == 4:    # tiny coordinates: many equal deviations
         ring = [(rng.randrange(4), rng.randrange(4)) for _ in range(n)]
+    elif mode == 6:    # saw with identical teeth: every tooth tip / valley has the same deviation
+        k, h = rng.randrange(2, 12), rng.randrange(1, 4)
+        ring = [(2 * i, (i % 2) * h) for i in range(2 * k + 1)] + [(4 * k, 10 + h), (0, 10 + h)]
+    elif mode == 7:    # lattice octagon with the symmetry of the square: all eight deviations equal
+        a, b = rng.randrange(1, 8), rng.randrange(9, 24)
+        ring = [(a, 0), (b, 0), (b + a, a), (b + a, b), (b, b + a), (a, b + a), (0, b), (0, a)]
+        r0 = rng.randrange(8)
+        ring = ring[r0:] + ring[:r0]
+        if rng.random() < 0.5:      # subdivide every edge at its midpoint-ish lattice point: ties among collinear points too
+            ring = [q for i, p in enumerate(ring) for q in (p, ((p[0] + ring[(i + 1) % 8][0]) // 2, (p[1] + ring[(i + 1) % 8][1]) // 2))
+                    if True]
+    elif mode == 8:    # staircase: equal steps, all corners tie
+        k, st = rng.randrange(2, 9), rng.randrange(1, 4)
+        ring = []
+        for i in range(k):
+            ring += [(i * st, i * st), ((i + 1) * st, i * st)]
+        ring += [(k * st, k * st), (0, k * st + 3)]
     else:
         ring = [(rng.randrange(R), rng.randrange(R)) for _ in range(n)]
     num = rng.choice([0, 1, 1, 2, 3, 4, 6, 8, 12, 20, 40, 400])
@@ -312,7 +344,8 @@ def run(cx):
         "Simplify: 'no vertex closer than tolerance' is tested exactly against tolerance*(1-1e-9) - 1e-12 (the library compares a rounded "
         "squared deviation with the rounded tolerance^2)",
         "correspondence regime: integer coordinates below 2^6..2^7 and tolerances k/2^j, where every product/quotient comparison the C++ makes is exact",
-        "monotone-chain correctness beyond the exhaustive bounded sweep is certificate-checked per output, not proved",
+        "the monotone chain is proved for exact orientation signs over Z; the library evaluates the sign in doubles, exact only when the products do not round "
+        "(the regime of the generated Hull inputs); outputs are certificate-checked in any case",
     ]
     cx.prove()
     _drop_heading_axiom(cx)
@@ -388,6 +421,11 @@ def corr_integer(cx, rng, run_both, drive, st, bump):
         dv = None if d[2] == "NONE" else [int(d[2])] + [int(x, 16) if not x.startswith("-") else -int(x[1:], 16) for x in d[3:]]
         m = hv[0]
         bump("simplify n<=4" if len(c["ring"]) <= 4 else "simplify n>4")
+        dv0 = init_devs(c["ring"])
+        if len(dv0) > 3 and dv0.count(min(dv0)) >= 2:
+            bump("simplify min deviation tied")
+            if 3 <= m < len(c["ring"]):
+                bump("simplify min deviation tied and vertices removed")
         if 3 < m < len(c["ring"]):
             st["nontriv"].add(("S", tuple(c["ring"]), c["num"], c["den"]))
         out_ring = list(zip(hv[1::2], hv[2::2]))
